@@ -121,6 +121,11 @@ pub struct UnmockCase {
     /// earlier applies_unmocked() clause keeps its priority (first declared wins, whatever the kind of response)
     #[serde(default)]
     pub later_answering_clause: bool,
+    /// strict mock only: the clause is the response sequence `applies_unmocked().once().then().returns(c).once()
+    /// .then().applies_unmocked()` and two calls are made before the observed one: the third match gets the LAST
+    /// segment, i.e. the real function again
+    #[serde(default)]
+    pub sandwich: bool,
 }
 
 impl UnmockCase {
@@ -136,6 +141,8 @@ impl UnmockCase {
     pub fn warmup_calls(&self) -> u8 {
         if self.partial {
             0
+        } else if self.sandwich {
+            2
         } else {
             self.quota
         }
@@ -351,7 +358,13 @@ pub fn source(c: &UnmockCase) -> String {
     };
     let mut clauses: Vec<String> = vec![];
     if !c.partial {
-        let quantify = if c.warmup_calls() > 0 { format!(".n_times({})", c.warmup_calls()) } else { String::new() };
+        let quantify = if c.sandwich {
+            ".once().then().returns(424243u32).once().then().applies_unmocked()".to_string()
+        } else if c.warmup_calls() > 0 {
+            format!(".n_times({})", c.warmup_calls())
+        } else {
+            String::new()
+        };
         clauses.push(format!(
             "M::m{t}.each_call(&|m| m.func(|{pat}, _| true)).applies_unmocked(){quantify}"
         ));
@@ -524,7 +537,8 @@ pub fn judge(c: &UnmockCase, line: &str) -> Result<CaseInfo, String> {
         .class_if(c.partial && !c.mention_unmatched, "partial:unmentioned")
         .class_if(c.partial && c.mention_unmatched, "partial:unmatched")
         .class_if(!c.partial, "strict:applies_unmocked")
-        .class_if(c.warmup_calls() > 0, "observed-call-is-surplus-to-an-exact-count")
+        .class_if(c.warmup_calls() > 0 && !c.sandwich, "observed-call-is-surplus-to-an-exact-count")
+        .class_if(!c.partial && c.sandwich, "third-segment-of-unmocked/value/unmocked-sequence")
         .class_if(!c.partial && c.later_answering_clause, "a-later-overlapping-clause-answers-a-constant")
         .class_if(m.has_default, "provided-method(default body)")
         .class_if(
@@ -615,15 +629,15 @@ pub fn case_strategy() -> impl Strategy<Value = UnmockCase> {
         any::<bool>(),
         proptest::option::weighted(0.35, 0..=6u8),
         proptest::bool::weighted(0.3),
-        (prop_oneof![2 => Just(0u8), 1 => any::<u8>()], proptest::bool::weighted(0.3), prop_oneof![2 => Just(0u8), 1 => 1..=3u8], proptest::bool::weighted(0.3)),
+        (prop_oneof![2 => Just(0u8), 1 => any::<u8>()], proptest::bool::weighted(0.3), prop_oneof![2 => Just(0u8), 1 => 1..=3u8], proptest::bool::weighted(0.3), proptest::bool::weighted(0.2)),
     )
-        .prop_map(|(methods, t, partial, mention_unmatched, recursion, prior_error, (static_before, extra_ordered_clause, quota, later_answering_clause))| {
+        .prop_map(|(methods, t, partial, mention_unmatched, recursion, prior_error, (static_before, extra_ordered_clause, quota, later_answering_clause, sandwich))| {
             let target = t as usize % methods.len();
-            UnmockCase { methods, target, partial, mention_unmatched, recursion, prior_error, static_before, extra_ordered_clause, quota, later_answering_clause }
+            UnmockCase { methods, target, partial, mention_unmatched, recursion, prior_error, static_before, extra_ordered_clause, quota, later_answering_clause, sandwich }
         })
 }
 
-pub const RULE: &str = "programs = generated traits of 1-4 methods (plus an optional recursive method), each with its own unmock_with registration {_, path, path(permuted / subset of self and the parameters)}, &self or &mut self receivers, 0-4 parameters from {u8, i32, &str, &u32, &mut u32, String} with adjacent parameters often sharing a type, sync / async fn / -> impl Future; the target method is resolved to the real implementation through a partial mock (unmentioned or mentioned-but-unmatched) or through applies_unmocked() in a strict mock (optionally quantified n_times(q) with q earlier calls, so that the observed call is surplus and still gets the pattern's response; optionally followed by a later overlapping clause that answers a constant and must not win); recursion depth 0..6 through the mock with the base case answered by a counted pattern. Non-trivial = >= 2 methods with different registration forms, or explicit parameters, or recursion depth >= 2; distinct = distinct case";
+pub const RULE: &str = "programs = generated traits of 1-4 methods (plus an optional recursive method), each with its own unmock_with registration {_, path, path(permuted / subset of self and the parameters)}, &self or &mut self receivers, 0-4 parameters from {u8, i32, &str, &u32, &mut u32, String} with adjacent parameters often sharing a type, sync / async fn / -> impl Future; the target method is resolved to the real implementation through a partial mock (unmentioned or mentioned-but-unmatched) or through applies_unmocked() in a strict mock (optionally quantified n_times(q) with q earlier calls, so that the observed call is surplus and still gets the pattern's response; optionally followed by a later overlapping clause that answers a constant and must not win; optionally as the response sequence unmocked / constant / unmocked with the observed call being the third match); recursion depth 0..6 through the mock with the base case answered by a counted pattern. Non-trivial = >= 2 methods with different registration forms, or explicit parameters, or recursion depth >= 2; distinct = distinct case";
 
 fn spec<'a>() -> Spec<'a, UnmockCase> {
     Spec {
